@@ -24,6 +24,8 @@ class Prop:
             "handler), on_error_resume_next (operator, factory, source factory), while_do and do_while; output (values, virtual times, "
             "terminal) and every source's subscription intervals are compared with an event-driven reference that subscribes sources "
             "strictly one after another. Scenarios with a same-instant tie between two sources are only checked for the grammar. "
+            "4 % of the repeat / retry / while_do / do_while scenarios run a source that terminates inside subscribe() 150-450 times "
+            "(every run has to start from the scheduler, not from inside the previous run's terminal callback). "
             "Distinct = (form, args, output); non-trivial = at least two notifications and two source subscriptions.")
     assumptions = ["tie policy: two different sources notifying at one instant are not ordered by the property", "callbacks total and deterministic (while_do conditions count their invocations)"]
     stubs = []
@@ -55,6 +57,13 @@ class Prop:
             a["v"] = [rng.randrange(0, 5) for _ in range(rng.randrange(0, 4))]
         if form in ("while_do", "do_while"):
             a["m"] = rng.randrange(0, 4)
+        if form in ("repeat", "retry", "while_do", "do_while") and rng.random() < 0.04:
+            # stack safety: hundreds of runs of a source that terminates inside its own subscribe() - each run has to start from the
+            # scheduler (trampoline), not from inside the previous run's terminal callback
+            spec = next(s for s in ctx.sources if s["id"] == srcs[0])
+            spec["kind"] = "sync"
+            spec["events"] = ([[0, "N", 1]] if rng.random() < 0.5 else []) + [[0, "E", {"err": "x"}] if form == "retry" else [0, "C"]]
+            a["n" if form in ("repeat", "retry") else "m"] = rng.choice([150, 300, 450])
         sc = {"clock": rng.choice(["test", "test", "historical"]), "sources": ctx.sources, "form": form, "srcs": srcs, "a": a, "sub_t": 205, "horizon": 3500}
         off = rng.choice([None, None, None, 37, 123, 411])
         if off and form not in ("while_do", "do_while", "catch_handler"):  # (those use callbacks with state shared across subscriptions)
